@@ -44,14 +44,13 @@ def _dedupe_rpm_ops(ops):
 
 
 def _dedupe_module_ops(case):
-    out, seen = [], set()
+    """groups of adds per (variant, arch, uid): the order INSIDE a group is content (RPM lists are extended in call order,
+    the last koji tag wins), the order of the groups is free"""
+    groups = {}
     for op in case["ops"]:
         if mf.module_model_apply({}, op, case["lists"]):
-            key = (op["variant"], op["arch"], ":".join(op["uid_parts"]))
-            if key not in seen:
-                seen.add(key)
-                out.append(op)
-    return out
+            groups.setdefault((op["variant"] or "", op["arch"], ":".join(op["uid_parts"])), []).append(op)
+    return [groups[k] for k in sorted(groups)]
 
 
 def _permute(items, plan):
@@ -81,8 +80,9 @@ def dump_of(fmt, desc, plan):
         obj = Modules()
         mf.fill_compose(obj)
         caller = mf.ModuleCaller(desc["lists"])
-        for op in _permute(_dedupe_module_ops(desc), plan):
-            caller.call(obj, op)
+        for group in _permute(_dedupe_module_ops(desc), plan):
+            for op in group:
+                caller.call(obj, op)
         return obj.dumps()
     if fmt == "extra_files":
         from productmd.extra_files import ExtraFiles
@@ -134,6 +134,18 @@ def inprocess_case(case):
         for i in range(case["repeat"]):
             again = must("repeated-dumps", dump)
             check(again == first, "bytes-depend-on-dump-count", lambda: "%s: dump #%d differs: %s" % (fmt, i + 1, first_difference(first, again)))
+    if fmt in ("modules", "extra_files"):
+        # caller-ordered lists are content: a module's RPM list / the entries of a cell come out in the order they were given
+        model = {}
+        if fmt == "modules":
+            for group in _dedupe_module_ops(desc):
+                for op in group:
+                    mf.module_model_apply(model, op, desc["lists"])
+        else:
+            for op in desc["ops"]:
+                mf.extra_model_apply(model, op)
+        got = json.loads(first)["payload"][fmt]
+        check(got == model, "caller-ordered-list-reordered", lambda: "%s: payload differs from the reference model (caller-ordered lists must keep their order)" % fmt)
     if fmt == "extra_files":
         # dump_for_tree is a dump too: it must not change what later dumps write
         import io
